@@ -39,7 +39,7 @@ def plan(tier):
 
 def required(tier):
     base = ["records_judged", "cigar_replays_ok", "reverse_step_records", "fragmented_inputs", "long_indel_reads",
-            "gotoh_optimal_confirmed", "cost_strictly_improved", "post:extract_path", "multi_core_runs", "supplementary_records", "stdout_output_runs"]
+            "gotoh_optimal_confirmed", "cost_strictly_improved", "post:extract_path", "multi_core_runs", "supplementary_records", "stdout_output_runs", "soft_masked_graphs"]
     base += ["span_60000_exact", "passthrough_records", "threshold_straddling_records"]
     return base
 
@@ -68,6 +68,11 @@ def run_case(ctx, rng, index, casedir):
     elif rng.random() < 0.5:
         rgfa.stretch(g, rng, rng.choice([5, 20, 60]) if ctx.tier == "quick" else rng.choice([5, 20, 60, 200]))
         sit["stretched_graphs"] += 1
+    if not big_case and rng.random() < 0.2:
+        # soft-masked graph; the reads are derived from the walks and carry the same lower-case bases
+        for n in g.nodes.values():
+            n.seq = "".join(c.lower() if rng.random() < 0.4 else c for c in n.seq)
+        sit["soft_masked_graphs"] += 1
     gpath = g.write(os.path.join(casedir, vary_name(rng, "g.gfa") + (".gz" if rng.random() < 0.2 else "")), rng=rng, shuffle=rng.random() < 0.4)
     M.CTX["pairs"], M.CTX["seqs"] = g.step_pairs(), g.seqs()
     recs = []
